@@ -1,1 +1,264 @@
-/-! Property theorems for C09 (only property-level statements and non-vacuity examples live here). -/
+import SpoxModel.Lemmas.Opset
+/-!
+# C09 — one opset per domain; mixed-version programs build and keep their meaning
+
+Property-level theorems about `Opset.buildModel Opset.genFacts` — the model of what
+`Graph.to_onnx_model` assembles — for **every** nested program (`PGraph`: any number of nodes, bodies at
+any depth, functions, inlined models with arbitrary imports). `genFacts` is regenerated from the source
+tree on every run (`INTERNAL_MIN_OPSET`, spox's `SCHEMAS` table, the shipped constructor table).
+
+What is *not* modelled: the output of `onnx.version_converter` for a converted node / inlined model
+(a `convert` entry is "valid" when the converter was asked for exactly the imported version).
+-/
+namespace C09
+open Opset
+
+/-! ## one version per domain -/
+
+/-- The model's imports list every domain once, and `"ai.onnx"` never next to `""`. -/
+theorem one_version_per_domain (g : PGraph) :
+    ((buildModel genFacts g).imports.map (·.1)).Nodup ∧
+      "ai.onnx" ∉ (buildModel genFacts g).imports.map (·.1) :=
+  policy_domains_nodup _
+
+/-- The same for the imports of every emitted function. -/
+theorem one_version_per_domain_functions (g : PGraph) :
+    ∀ f ∈ (buildModel genFacts g).funcs, (f.1.map (·.1)).Nodup ∧ "ai.onnx" ∉ f.1.map (·.1) := by
+  intro f hf
+  simp only [buildModel, List.mem_map] at hf
+  obtain ⟨fg, _, rfl⟩ := hf
+  exact policy_domains_nodup _
+
+/-! ## the import of a domain is the maximum required anywhere -/
+
+/-- `v` is required for domain `d` somewhere in the model: by the result identities of a graph
+    (`INTERNAL_MIN_OPSET`, default domain), or by the own requirement of a node at any depth — in the main
+    graph, in a body, in a function graph, or as an import of an inlined model (`"ai.onnx"` = `""`). -/
+def Required (F : Facts) (g : PGraph) (d : String) (v : Nat) : Prop :=
+  (d = "" ∧ v = F.minOpset) ∨ ∃ n ∈ allNodesG g, ∃ r ∈ kindReq F n.kind, fold r.1 = d ∧ r.2 = v
+
+theorem required_iff (F : Facts) (g : PGraph) (d : String) (v : Nat) :
+    (∃ r ∈ reqGraph F g ++ [], fold r.1 = d ∧ r.2 = v) ↔ Required F g d v := by
+  simp only [List.append_nil]
+  constructor
+  · rintro ⟨r, hr, h1, h2⟩
+    rcases (mem_reqGraph_iff F r g).mp hr with h | ⟨n, hn, hk⟩
+    · subst h
+      exact Or.inl ⟨by simpa [fold] using h1.symm, h2.symm⟩
+    · exact Or.inr ⟨n, hn, r, hk, h1, h2⟩
+  · rintro (⟨rfl, rfl⟩ | ⟨n, hn, r, hk, h1, h2⟩)
+    · exact ⟨("", F.minOpset), (mem_reqGraph_iff F _ g).mpr (Or.inl rfl), by simp [fold], rfl⟩
+    · exact ⟨r, (mem_reqGraph_iff F r g).mpr (Or.inr ⟨n, hn, hk⟩), h1, h2⟩
+
+/-- The model imports domain `d` at version `v` iff `v` is required for `d` somewhere (any nesting depth,
+    functions and inlined models included) and nothing larger is. -/
+theorem import_is_max (g : PGraph) (d : String) (v : Nat) :
+    lookup d (buildModel genFacts g).imports = some v ↔
+      Required genFacts g d v ∧ ∀ v', Required genFacts g d v' → v' ≤ v := by
+  show lookup d (policy (reqGraph genFacts g ++ [])) = some v ↔ _
+  rw [lookup_policy_iff, required_iff]
+  constructor
+  · rintro ⟨h1, h2⟩
+    refine ⟨h1, fun v' hv' => ?_⟩
+    obtain ⟨r, hr, ha, hb⟩ := (required_iff genFacts g d v').mpr hv'
+    exact hb ▸ h2 r hr ha
+  · rintro ⟨h1, h2⟩
+    exact ⟨h1, fun r hr ha => h2 r.2 ((required_iff genFacts g d r.2).mp ⟨r, hr, ha, rfl⟩)⟩
+
+/-- A domain nobody requires is not imported. -/
+theorem not_imported_of_not_required (g : PGraph) (d : String)
+    (h : ∀ v, ¬ Required genFacts g d v) : lookup d (buildModel genFacts g).imports = none := by
+  cases hl : lookup d (buildModel genFacts g).imports with
+  | none => rfl
+  | some v => exact absurd ((import_is_max g d v).mp hl).1 (h v)
+
+/-! ## the floor -/
+
+/-- `INTERNAL_MIN_OPSET` as found in the source on this run is at least 14. -/
+theorem min_opset_ge_14 : 14 ≤ Generated.OpsetFacts.internalMinOpset := by decide
+
+/-- Every built model imports the default domain, at 14 or above — whatever the program. -/
+theorem default_floor (g : PGraph) :
+    ∃ v, lookup "" (buildModel genFacts g).imports = some v ∧ 14 ≤ v := by
+  have hd : Dominates (buildModel genFacts g).imports (reqGraph genFacts g ++ []) := policy_dominates _
+  have hm : ("", genFacts.minOpset) ∈ reqGraph genFacts g ++ [] := by
+    cases g with | mk nodes => simp [reqGraph]
+  obtain ⟨t, ht, hle⟩ := hd _ hm
+  refine ⟨t, by simpa [fold] using ht, Nat.le_trans min_opset_ge_14 hle⟩
+
+/-- …and so does every body and every function of it (each graph's own opsets). -/
+theorem default_floor_every_graph (extra : List Req) (g : PGraph) :
+    ∃ v, lookup "" (opsetsOf genFacts extra g) = some v ∧ 14 ≤ v := by
+  have hd : Dominates (opsetsOf genFacts extra g) (reqGraph genFacts g ++ extra) := policy_dominates _
+  have hm : ("", genFacts.minOpset) ∈ reqGraph genFacts g ++ extra := by
+    cases g with | mk nodes => simp [reqGraph]
+  obtain ⟨t, ht, hle⟩ := hd _ hm
+  refine ⟨t, by simpa [fold] using ht, Nat.le_trans min_opset_ge_14 hle⟩
+
+/-! ## every emitted node is valid at the imported version -/
+
+/-- The node is one the property quantifies over: a shipped constructor (its `(op, version)` is a row of a
+    shipped module, with the matching "has a body" flag), emitting one NodeProto, all ranks known. -/
+def NodeOk (n : PNode) : Prop :=
+  match n.kind with
+  | .op d o v => n.nProtos = 1 ∧ n.concrete = true ∧ shippedRow d o v (!n.subs.isEmpty) = true
+  | _ => True
+
+/-- `NodeOk` as a decidable statement (for the witnesses below) -/
+def NodeOkB (n : PNode) : Prop :=
+  match n.kind with
+  | .op d o v => (n.nProtos == 1 && n.concrete && shippedRow d o v (!n.subs.isEmpty)) = true
+  | _ => True
+
+instance (n : PNode) : Decidable (NodeOkB n) := by
+  unfold NodeOkB
+  cases n.kind <;> infer_instance
+
+/-- The imports stay within the shipped modules (`ai.onnx` ≤ 21, `ai.onnx.ml` ≤ 5). -/
+def InShippedRange (imports : List Req) : Prop :=
+  ∀ d t, d = "" ∨ d = "ai.onnx.ml" → lookup d imports = some t → t ≤ shippedMax d
+
+/-- Every entry is adapted by `adapt_best_effort` against opsets that dominate its own requirement. -/
+theorem entry_invariant (g : PGraph) : ∀ e ∈ (buildModel genFacts g).main, EntryOk genFacts e :=
+  adaptGraph_ok genFacts [] g
+
+/-- **Partial** (`hbody` excludes the listed finding `adapt:body-own-opsets`, `concrete` inside `NodeOk`
+    excludes `adapt:unknown-rank`): a node adapted against the model's own imports is emitted in a form
+    that is well-formed at the imported version of its domain — kept when the schema in force at the
+    import is the one it was written for or accepts its form (decided against the generated schema
+    history for every shipped constructor), otherwise sent to the converter with exactly the imported
+    version as target. -/
+theorem node_valid_at_import_partial (g : PGraph) (e : Entry)
+    (he : e ∈ (buildModel genFacts g).main)
+    (hbody : e.opsets = (buildModel genFacts g).imports)
+    (hok : NodeOk e.node)
+    (hrange : InShippedRange (buildModel genFacts g).imports) :
+    entryValid (buildModel genFacts g).imports e = true := by
+  obtain ⟨hdec, hdom⟩ := entry_invariant g e he
+  rw [← hbody] at hrange ⊢
+  obtain ⟨ops, node, dec⟩ := e
+  simp only at hdec hdom hrange hok ⊢
+  subst hdec
+  obtain ⟨k, np, c, subs, i⟩ := node
+  cases k with
+  | op d o v =>
+    simp only [NodeOk, PNode.kind, PNode.nProtos, PNode.concrete, PNode.subs] at hok
+    obtain ⟨h1, h2, h3⟩ := hok
+    have hd := shipped_domain h3
+    exact op_valid ops d o v np c subs i hdom h1 h2 h3 (fun t ht => hrange d t hd ht)
+  | inline imps hd => exact inline_valid ops imps hd np c subs i hdom
+  | internal => simp [entryValid, PNode.kind]
+  | intro => simp [entryValid, PNode.kind]
+  | func d v => simp [entryValid, PNode.kind]
+
+/-- The decision itself never fails (`opsets[domain]` is always present) for shipped constructors. -/
+theorem decision_total (g : PGraph) (e : Entry) (he : e ∈ (buildModel genFacts g).main)
+    (hok : NodeOk e.node) : e.decision ≠ .pyError := by
+  obtain ⟨hdec, hdom⟩ := entry_invariant g e he
+  obtain ⟨ops, node, dec⟩ := e
+  simp only at hdec hdom hok ⊢
+  subst hdec
+  obtain ⟨k, np, c, subs, i⟩ := node
+  cases k with
+  | op d o v =>
+    simp only [NodeOk, PNode.kind, PNode.nProtos, PNode.concrete, PNode.subs] at hok
+    obtain ⟨h1, h2, h3⟩ := hok
+    have hf : fold d = d := fold_eq_self (shipped_domain h3)
+    obtain ⟨t, ht, _⟩ := hdom (d, v) List.mem_cons_self
+    simp only [hf] at ht
+    subst h1
+    unfold adaptBestEffort
+    simp only [hf, ht]
+    split <;> (try split) <;> (try split) <;> (try split) <;> (try split) <;> (try split) <;> simp_all
+  | inline imps hd =>
+    obtain ⟨t, ht, _⟩ := hdom ("", genFacts.minOpset) (by simp [kindReq, PNode.kind])
+    have ht' : lookup "" ops = some t := by simpa [fold] using ht
+    unfold adaptBestEffort
+    simp only [ht']
+    split <;> (try split) <;> simp_all
+  | internal => simp [adaptBestEffort]
+  | intro => simp [adaptBestEffort]
+  | func d v => simp [adaptBestEffort]
+
+/-! ## the statement without the exclusions is false of the code: witnesses -/
+
+open Generated.OpsetFacts in
+/-- operator number of a default-domain operator -/
+def opNo (name : String) : Nat := (opNames.idxOf? ("", name)).getD opNames.length
+
+/-- `if c then reduce_mean(x, axes=[1]) (v17) else reduce_max(x, [1]) (v18)`: the v17 ReduceMean-13 sits
+    in a body whose own maximum is 14 while the model imports 18. -/
+def bodyWitness : PGraph :=
+  .mk [.mk (.op "" (opNo "If") 16) 1 true
+        [.mk [.mk (.op "" (opNo "ReduceMean") 13) 1 true [] 1, .mk (.op "" (opNo "Sub") 14) 1 true [] 2],
+         .mk [.mk (.op "" (opNo "Constant") 13) 1 true [] 3, .mk (.op "" (opNo "ReduceMax") 18) 1 true [] 4,
+              .mk (.op "" (opNo "Sub") 14) 1 true [] 5]] 0]
+
+/-- `node_valid_at_import` without "bodies at the model's maximum" is false: every node of the witness
+    is a shipped constructor with known ranks, the imports are within range, and the ReduceMean in the
+    body is kept in its version-13 form (`axes` attribute) although the model imports 18. -/
+theorem body_own_opsets_counterexample :
+    (buildModel genFacts bodyWitness).imports = [("", 18)] ∧
+    (buildModel genFacts bodyWitness).main.all (fun e => decide (NodeOkB e.node)) = true ∧
+    (buildModel genFacts bodyWitness).main.any
+      (fun e => e.node.id == 1 && e.opsets == [("", 14)] && e.decision == .keepSameSchema &&
+        !entryValid (buildModel genFacts bodyWitness).imports e) = true := by
+  decide +kernel
+
+/-- `reduce_mean(reshape(x, s), axes=[0])` (v17, rank unknown) next to a v18 `reduce_max`. -/
+def rankWitness : PGraph :=
+  .mk [.mk (.op "" (opNo "Reshape") 14) 1 false [] 0,
+       .mk (.op "" (opNo "ReduceMean") 13) 1 false [] 1,
+       .mk (.op "" (opNo "Constant") 13) 1 true [] 2,
+       .mk (.op "" (opNo "ReduceMax") 18) 1 false [] 3]
+
+/-- `node_valid_at_import` without "ranks known" is false: the conversion of the ReduceMean cannot be
+    carried out (`adapt_node`'s singleton model is rejected), the build fails. -/
+theorem unknown_rank_counterexample :
+    (buildModel genFacts rankWitness).imports = [("", 18)] ∧
+    (buildModel genFacts rankWitness).main.any
+      (fun e => e.node.id == 1 && e.opsets == [("", 18)] && e.decision == .convertError 13 18 &&
+        !entryValid (buildModel genFacts rankWitness).imports e) = true := by
+  decide +kernel
+
+/-! ## names introduced by adaptation -/
+
+/-- Names introduced while adapting are distinct from each other and from every other value name of the
+    model, for any number of converted nodes in any graphs: they carry the (unique) name of their node.
+    `hid`: node names are unique (C02); `hconv`: the converter's names are distinct within one singleton. -/
+theorem adapted_names_fresh (nOut : Nat → Nat) (conv : Nat → List Nat) (es : List Entry)
+    (hid : (es.map (fun e => e.node.id)).Nodup) (hconv : ∀ n, (conv n).Nodup) :
+    (allNames true nOut conv es).Nodup :=
+  allNames_nodup nOut conv es hid hconv
+
+/-- On the pinned tree the converter's own names were used (`Name.bare`): two converted nodes in one model
+    define the same name — the statement above was false. -/
+theorem adapted_names_fresh_pinned_counterexample :
+    ∃ (es : List Entry), (es.map (fun e => e.node.id)).Nodup ∧
+      ¬ (allNames false (fun _ => 1) (fun _ => [4]) es).Nodup := by
+  refine ⟨[⟨[], .mk (.op "" 0 13) 1 true [] 1, .convert 13 18⟩, ⟨[], .mk (.op "" 1 13) 1 true [] 2, .convert 13 18⟩], ?_, ?_⟩
+  · decide
+  · decide
+
+/-! ## non-vacuity -/
+
+/-- two v17 reductions next to a v18 one, an inlined opset-11 model, an ml operator: imports and decisions -/
+def mixedExample : PGraph :=
+  .mk [.mk (.op "" (opNo "ReduceMean") 13) 1 true [] 1,
+       .mk (.op "" (opNo "ReduceL2") 13) 1 true [] 2,
+       .mk (.op "" (opNo "ReduceMax") 18) 1 true [] 3,
+       .mk (.inline [("", 11)] true) 3 true [] 4,
+       .mk (.op "ai.onnx.ml" ((Generated.OpsetFacts.opNames.idxOf? ("ai.onnx.ml", "LabelEncoder")).getD 0) 2) 1 true [] 5,
+       .mk (.op "ai.onnx.ml" ((Generated.OpsetFacts.opNames.idxOf? ("ai.onnx.ml", "LabelEncoder")).getD 0) 4) 1 true [] 6,
+       .mk (.op "" (opNo "Add") 14) 1 true [] 7]
+
+example : (buildModel genFacts mixedExample).imports = [("", 18), ("ai.onnx.ml", 4)] := by decide +kernel
+example : (buildModel genFacts mixedExample).main.map (·.decision) =
+    [.convert 13 18, .convert 13 18, .keepSameVersion, .convertInline 11 18, .keepNonDefault 2 4,
+     .keepSameVersion, .keepSameSchema] := by decide +kernel
+example : (buildModel genFacts mixedExample).main.all (fun e => decide (NodeOkB e.node)) = true := by decide +kernel
+example : (buildModel genFacts mixedExample).main.all
+    (fun e => entryValid (buildModel genFacts mixedExample).imports e) = true := by decide +kernel
+example : (buildModel genFacts (.mk [])).imports = [("", 14)] := by decide +kernel
+
+end C09
